@@ -153,6 +153,7 @@ class Log:
         self.sources = set()
         self.canaries = 0
         self.new_functions = []
+        self.ghost_origin = {}      # contract line tag -> function whose body the ghost line is spliced into
 
     def rule(self, r, msg):
         self.rules.append("%s %s" % (r, msg))
@@ -212,7 +213,7 @@ def _find_all(toks, pat):
     return res
 
 
-def emit_fn(out, src, item, spec, log, where, canary=False):
+def emit_fn(out, src, item, spec, log, where, canary=False, strip=None):
     """item: rsscan.Item (kind fn) whose tokens index into src.text; spec: FnSpec"""
     toks = item.toks
     qual = "%s::%s" % (where, item.name)
@@ -221,6 +222,13 @@ def emit_fn(out, src, item, spec, log, where, canary=False):
         out.raw("\n")
         return
     log.functions.append(qual)
+    if strip and qual.replace(" ", "") in strip:
+        # fallback after a front-end error inside this function's ghost code: keep the contract (header), drop the hints
+        spec.start, spec.tail, spec.anchors, spec.loops = [], [], [], {}
+        log.lost_anchors.append("%s: in-body ghost code stripped (it no longer fits the function body)" % qual)
+    for sec in [spec.start, spec.tail] + [a[3] for a in spec.anchors] + [v for d in spec.loops.values() for v in d.values()]:
+        for (_t, vline) in sec:
+            log.ghost_origin[vline] = qual.replace(" ", "")
     edits = []   # (char_a, char_b, kind, payload) ; a==b for insertions. payload list of (text, vc_line)
     has_body = item.body_open >= 0
     if spec.dropbody:
@@ -455,7 +463,7 @@ def _struct_emit(out, src, item, derives, log, keep_private=False):
         log.rule("R2", "struct %s: fields %s made pub" % (item.name, ", ".join(made)))
 
 
-def build(vc_path, repo_root, defines=None, canary=False, known_drops=None):
+def build(vc_path, repo_root, defines=None, canary=False, known_drops=None, strip=None):
     """returns (text, origins, log). defines: dict of NAME->str for `//@if NAME` ... `//@endif` sections."""
     defines = defines or {}
     lines = []          # (text, "file:line")
@@ -507,7 +515,7 @@ def build(vc_path, repo_root, defines=None, canary=False, known_drops=None):
         block = None
         src, item = b["src"], b["item"]
         if b["kind"] == "fn":
-            emit_fn(out, src, item, b["fns"][item.name], log, src.path, canary)
+            emit_fn(out, src, item, b["fns"][item.name], log, src.path, canary, strip)
             return
         toks = item.toks
         where = "%s::%s" % (src.path, " ".join(norm(item.header())) if b["kind"] == "impl" else item.name)
@@ -557,7 +565,7 @@ def build(vc_path, repo_root, defines=None, canary=False, known_drops=None):
                     log.new_functions.append(key)
                     spec = FnSpec(sub.name, b["line"], keep=True)
                 seen.add(sub.name)
-                emit_fn(out, src, sub, spec, log, where, canary)
+                emit_fn(out, src, sub, spec, log, where, canary, strip)
             elif sub.kind == "const" and sub.name in hoisted:
                 out.repo(src, sub.start, hoisted[sub.name][0])
                 out.raw(" %s;\n" % hoisted[sub.name][1])
